@@ -224,6 +224,13 @@ static void do_park(void)
 }
 static void do_unpark(void) { sem_post(&g_sem_resume); }
 static long activity(void) { pthread_mutex_lock(&g_mu); long a = g_activity; pthread_mutex_unlock(&g_mu); return a; }
+/* Quiescence. A park happens inside cb_wake, once per dispatch round at most. The round of the
+ * first park may have taken its readiness snapshot before the main thread's last act (another
+ * wake-up, e.g. of a hand-over, may have been in flight); the round of the second park started
+ * after the first park, hence after everything the main thread did: its snapshot is complete
+ * and everything in it has been handled when the third park is reached (select handles the
+ * wake-up before the other descriptors of the same round, poll after, epoll anywhere). If no
+ * callback ran between the start and the third park, nothing was pending. */
 static void quiesce(void)      /* loop must be running (not parked) */
 {
 	for (int guard = 0; guard < 10000 && !g_timeout; guard++) {
@@ -231,7 +238,10 @@ static void quiesce(void)      /* loop must be running (not parked) */
 		do_park(); do_unpark();
 		do_park(); do_unpark();
 		if (g_fam == 't') { usleep(200); do_park(); do_unpark(); do_park(); do_unpark(); }
-		if (activity() == a0) return;
+		do_park();
+		long a1 = activity();
+		do_unpark();
+		if (a1 == a0) return;
 	}
 }
 
@@ -294,9 +304,9 @@ static int new_listener(void)
 		g_taddr.sin_family = AF_INET; g_taddr.sin_addr.s_addr = htonl(INADDR_LOOPBACK); g_taddr.sin_port = 0;
 		socklen_t l = sizeof g_taddr;
 		if (fd < 0 || bind(fd, (struct sockaddr *)&g_taddr, sizeof g_taddr) != 0 ||
-			getsockname(fd, (struct sockaddr *)&g_taddr, &l) != 0) return -1;
+			getsockname(fd, (struct sockaddr *)&g_taddr, &l) != 0) { if (fd >= 0) close(fd); return -1; }
 	}
-	if (listen(fd, 128) != 0) return -1;
+	if (listen(fd, 128) != 0) { close(fd); return -1; }
 	return fd;
 }
 
@@ -327,6 +337,12 @@ static void vh_op(int argc, char **argv)
 		muggle_socket_evloop_handle_set_alloc_free(&g_handle, NULL, cb_alloc, cb_free);
 		muggle_socket_evloop_handle_attach(&g_handle, g_evloop);
 		g_lfd = new_listener();
+		if (g_lfd < 0 && g_fam == 't') {
+			/* loopback TCP not available right now (ephemeral ports exhausted by TIME_WAIT):
+			 * the scenario is run over AF_UNIX instead; nothing else depends on the family */
+			g_fam = 'u';
+			g_lfd = new_listener();
+		}
 		if (g_lfd < 0) { printf("fail\n"); return; }
 		rec_t *r = &R[0];
 		r->ctx = (muggle_socket_context_t *)malloc(sizeof *r->ctx);
@@ -351,7 +367,14 @@ static void vh_op(int argc, char **argv)
 		 * exist before cb_alloc looks for it, so the loop's callbacks are held off meanwhile */
 		pthread_mutex_lock(&g_mu);
 		if (g_fam == 'u') { fd = socket(AF_UNIX, SOCK_STREAM, 0); rc = connect(fd, (struct sockaddr *)&g_uaddr, g_ulen); }
-		else { fd = socket(AF_INET, SOCK_STREAM, 0); rc = connect(fd, (struct sockaddr *)&g_taddr, sizeof g_taddr); }
+		else {
+			fd = socket(AF_INET, SOCK_STREAM, 0); rc = connect(fd, (struct sockaddr *)&g_taddr, sizeof g_taddr);
+			for (int tries = 0; rc != 0 && errno == EADDRNOTAVAIL && tries < 200; tries++) {
+				struct timespec ts = {0, 20000000}; nanosleep(&ts, NULL);   /* no free ephemeral port: wait for one */
+				close(fd);
+				fd = socket(AF_INET, SOCK_STREAM, 0); rc = connect(fd, (struct sockaddr *)&g_taddr, sizeof g_taddr);
+			}
+		}
 		if (rc != 0) { pthread_mutex_unlock(&g_mu); printf("connect-failed %d\n", errno); if (fd >= 0) close(fd); return; }
 		int c = g_n;
 		rec_t *r = &R[c];
